@@ -195,7 +195,7 @@ impl Message {
 //@ item sim/elvis-core/src/message.rs :: impl Message / fn header_inner id=Message.header_inner
 //@ contract
     requires old(self).wf(), header.wf(), old(self)@.len() + header@.len() <= usize::MAX,
-    ensures final(self).wf(), final(self)@ == header@ + old(self)@,   //# prepends [C07]
+    ensures final(self).wf(), final(self)@ == header@ + old(self)@,   //# prepends [C07,C16]
 //@ after 1 `self.chunks.push_front(header);`
         proof {
             assert(self.chunks@ =~= seq![header] + old(self).chunks@);
